@@ -103,6 +103,12 @@ func asnOf(ip netip.Addr) geoip.ASN {
 		return 64500
 	case netip.MustParsePrefix("100.71.0.0/16").Contains(ip):
 		return 64501
+	case ip == netip.MustParseAddr("198.51.100.200"):
+		// Inside a profile's allowed subnet, but of a blocked ASN.
+		return 64500
+	case ip == netip.MustParseAddr("198.51.100.9"):
+		// Inside a profile's blocked subnet, but of an allowed ASN.
+		return 64501
 	}
 
 	return 0
@@ -113,7 +119,7 @@ func buildUniverse(t *kernel.Tape) (u *universe) {
 	for i := 0; i < 3; i++ {
 		p := &profSpec{
 			id:        agd.ProfileID(fmt.Sprintf("prof%d", i)),
-			deleted:   i == 2 && t.Chance(1, 2, "prof-deleted"),
+			deleted:   t.Chance(1, 4, "prof-deleted"),
 			qlog:      t.Chance(1, 2, "qlog"),
 			iplog:     t.Chance(1, 2, "iplog"),
 			filtering: true,
@@ -142,7 +148,7 @@ func buildUniverse(t *kernel.Tape) (u *universe) {
 	for i := 0; i < 6; i++ {
 		d := &devSpec{
 			id:       agd.DeviceID(fmt.Sprintf("dev%d", i)),
-			prof:     u.profs[i%3],
+			prof:     u.profs[t.Choose(3, "dev-prof")],
 			attached: i != 5 || t.Chance(1, 2, "dev-attached"),
 		}
 		switch t.Choose(5, "auth") {
